@@ -1152,25 +1152,25 @@ def run(tier: str, seed: int, replay: Optional[str] = None) -> int:
             scen.append(sc)
 
     timing["scenarios"] = round(time.time() - T0, 1)
-    traces = []
     stats = {"export_left_eval": 0, "skipped_placeholder_slots": 0}
-    for sc in scen:
+    batches = _Batches(R, "graph replay + random")
+    n_events = 0
+    for i, sc in enumerate(scen):
         tr, drv = execute(sc, open_ids)
-        traces.append(tr)
+        n_events += len(tr["ev"])
         stats["export_left_eval"] += getattr(drv, "export_left_eval", 0)
         stats["skipped_placeholder_slots"] += getattr(drv, "skipped_slots", 0)
+        if i in (0, n_graph_scen - 1, len(scen) - 1):
+            R.sample({"scenario": {k: v for k, v in sc.items() if k != "steps"} | {"steps": sc["steps"][:6]},
+                      "observed": [{"a": e["a"], "v": e["v"] if e["a"] != "load" else "(checkpoint)", "o": e["o"][:1],
+                                    "rep": e["rep"][:2], "rv": e["rv"][:1]} for e in tr["ev"][:4]]})
+        batches.add(sc, tr)
     timing["executed"] = round(time.time() - T0, 1)
+    batches.finish()
     R.extra.update(stats)
-    R.extra["events_executed"] = sum(len(t["ev"]) for t in traces)
+    R.extra["events_executed"] = n_events
     R.extra["graph_scenarios"] = n_graph_scen
     R.extra["random_scenarios"] = len(scen) - n_graph_scen
-    for i in (0, n_graph_scen - 1, len(scen) - 1):
-        R.sample({"scenario": {k: v for k, v in scen[i].items() if k != "steps"} | {"steps": scen[i]["steps"][:6]},
-                  "observed": [{"a": e["a"], "o": e["o"][:1], "rep": e["rep"][:2], "rv": e["rv"][:1]} for e in traces[i]["ev"][:3]]})
-
-    nontrivial = {id(sc): _winner_changes(tr) for sc, tr in zip(scen, traces)}
-    vs = _validate(R, traces, scen, lambda s: nontrivial[id(s)], "graph replay + random")
-    _extra_known(R, vs)
     timing["validated"] = round(time.time() - T0, 1)
     return R.finish()
 
@@ -1180,7 +1180,60 @@ TLC_ENV = {"JAVA_TOOL_OPTIONS": "-Xss64m"}     # SelectionTrace recurses over bl
 
 def _validate(R: Run, traces, scen, nontrivial, label: str) -> List[str]:
     return R.validate("SelectionTrace", "SelectionTrace", traces, scen, nontrivial=nontrivial, label=label,
-                      chunk=1500, workers=8, env=TLC_ENV)
+                      chunk=1 << 30, workers=8, env=TLC_ENV)
+
+
+class _Batches:
+    """Traces are validated in batches of bounded size (TLC holds a batch in memory) while the next scenarios are
+    being executed: the TLC run of a batch is started in the background, its verdicts are then handed to
+    core.Run.validate (classification, known findings, evidence counters stay in core)."""
+    MAX_EVENTS = 40000
+
+    def __init__(self, R: Run, label: str):
+        from concurrent.futures import ThreadPoolExecutor
+        self.R, self.label = R, label
+        self.ex = ThreadPoolExecutor(max_workers=1)
+        self.cur: List[Tuple[Any, Any]] = []
+        self.cur_events = 0
+        self.pending: List[Tuple[Any, List[Any], List[Any], Dict[int, bool]]] = []
+        tlc.scratch()
+
+    def add(self, sc, tr) -> None:
+        self.cur.append((sc, tr))
+        self.cur_events += len(tr["ev"])
+        if self.cur_events >= self.MAX_EVENTS:
+            self._submit()
+
+    def _submit(self) -> None:
+        if not self.cur:
+            return
+        scs = [x[0] for x in self.cur]
+        trs = [x[1] for x in self.cur]
+        nontriv = {id(sc): _winner_changes(tr) for sc, tr in self.cur}
+        fut = self.ex.submit(tlc.validate_traces, "SelectionTrace", "SelectionTrace", trs, chunk=1 << 30, workers=6,
+                             env=TLC_ENV)
+        self.pending.append((fut, scs, trs, nontriv))
+        self.cur, self.cur_events = [], 0
+        while len(self.pending) > 2:          # bound the memory held by finished scenarios
+            self._collect()
+
+    def _collect(self) -> None:
+        fut, scs, trs, nontriv = self.pending.pop(0)
+        res = fut.result()
+        orig = tlc.validate_traces
+        tlc.validate_traces = lambda *a, **k: res
+        try:
+            vs = self.R.validate("SelectionTrace", "SelectionTrace", trs, scs, nontrivial=lambda s: nontriv[id(s)],
+                                 label=self.label)
+        finally:
+            tlc.validate_traces = orig
+        _extra_known(self.R, vs)
+
+    def finish(self) -> None:
+        self._submit()
+        while self.pending:
+            self._collect()
+        self.ex.shutdown(wait=True)
 
 
 def _extra_known(R: Run, verdicts: List[str]) -> None:
